@@ -345,6 +345,8 @@ def _facts(self, fn, node, extra=()):
     P = self.prover(fn)
     base = list(P.facts_at(node))
     out = list(base)
+    out.extend(extra)
+    pending = []        # (call info, payload, conditional postconditions) whose precondition is not yet established
     # summaries of in-crate callees
     ok_calls = []
     for f in base:
@@ -363,6 +365,8 @@ def _facts(self, fn, node, extra=()):
                 cf = self.F.fns[callee]
                 summ = self.summary(cf)
                 self._instantiate(fn, info, summ.get("always", []), None, out)
+                if summ.get("cond_always"):
+                    pending.append((info, None, summ["cond_always"]))
     for item in ok_calls:
         V = item[0]
         if V[0] != "call" or not self.is_local(V[1]):
@@ -383,14 +387,50 @@ def _facts(self, fn, node, extra=()):
             variant_ok = (len(item) == 2) or item[2] == 0
             if variant_ok:
                 self._instantiate(fn, info, summ.get("ok", []), item[1], out)
+                if summ.get("cond_ok"):
+                    pending.append((info, item[1], summ["cond_ok"]))
         elif _is_option(cf):
             if len(item) == 3 and item[2] == 1:
                 self._instantiate(fn, info, summ.get("ok", []), item[1], out)
+                if summ.get("cond_ok"):
+                    pending.append((info, item[1], summ["cond_ok"]))
+    # conditional postconditions ("a cursor that was inside the input on entry is inside it on return"): the
+    # precondition is proved from what is known so far; repeated until nothing new is established
+    for _round in range(4):
+        progress = False
+        for item in list(pending):
+            info, payload, conds = item
+            left = []
+            for pre, post in conds:
+                tmp = []
+                self._instantiate(fn, info, [pre], payload, tmp)
+                if tmp and _cheaply_implied(P, tmp[0][1], out):
+                    self._instantiate(fn, info, [post], payload, out)
+                    progress = True
+                else:
+                    left.append((pre, post))
+            pending.remove(item)
+            if left:
+                pending.append((info, payload, left))
+        if not progress:
+            break
     self.iter_facts(fn, base, out)
-    out.extend(extra)
     if not extra:
         self._facts_cache[key] = out
     return out
+
+
+def _cheaply_implied(P, g, facts):
+    """g <= 0 follows from one fact with the same variable part, or from a shallow search"""
+    gn = lin_norm(g)
+    if not gn[1]:
+        return gn[0] <= 0
+    for f in facts:
+        if f[0] == "le":
+            fl = lin_norm(f[1])
+            if fl[1] == gn[1] and fl[0] >= gn[0]:
+                return True
+    return P.prove_le0(g, facts, 1)
 
 
 def _instantiate(self, fn, info, lins, payload, out):
@@ -741,7 +781,37 @@ def _compute_summary(self, cf, verify=True):
                 continue
             if not verify or holds_everywhere(l, groups["err"]):
                 always.append(l)
-    return {"ok": ok_facts, "always": always}
+    # conditional postconditions: a cursor that was inside the slice on entry is inside it on return
+    cond_ok, cond_always = [], []
+    if verify:
+        for p in cursor_params:
+            for q in slice_params:
+                pre = lin_norm(lin_add((0, ((("PI", p), 1),)), (0, ((("PL", q), 1),)), -1))      # PI <= PL
+                post = lin_norm(lin_add((0, ((("PF", p), 1),)), (0, ((("PL", q), 1),)), -1))     # PF <= PL
+                if post in ok_facts:
+                    continue
+                pre_c = concretize(pre, okpts[0][1], None)
+                if pre_c is None or pre_c == SKIP:
+                    continue
+                assume = [("le", pre_c)]
+
+                def holds_under(pts):
+                    for node, st, payload in pts:
+                        g = concretize(post, st, payload)
+                        if g is None:
+                            return False
+                        if g == SKIP:
+                            continue
+                        facts = self.facts(cf, node, tuple(assume))
+                        if P.prove_le0(g, facts) or self.prove_inductive(cf, g, node, facts, 0, tuple(assume)):
+                            continue
+                        return False
+                    return True
+                if holds_under(okpts):
+                    cond_ok.append((pre, post))
+                    if not wraps or holds_under(groups["err"]):
+                        cond_always.append((pre, post))
+    return {"ok": ok_facts, "always": always, "cond_ok": cond_ok, "cond_always": cond_always}
 
 
 def fn_block_has_stmts(cf, b):
@@ -1290,7 +1360,7 @@ def _decide_guard(self, fn, ob, scope):
     # the right things and left part of the extent out (a header, a length prefix) - values that pass the test and break
     # the bound exist
     if ob.kind in ("slice", "sliceto", "slicefrom", "index"):
-        facts_here = self.facts(fn, ob.block)
+        facts_here = P.explicit_facts_at(ob.block)
         for g, text in og:
             gn = lin_norm(g)
             if not gn[1]:
@@ -1477,6 +1547,15 @@ def _loop_bounded(self, fn, H):
                 return True
             if o and o != "same" and o[0] in ("sliceiter", "enum") and _fixed_array_root(an, o[1]):
                 return True
+            if o and o != "same" and o[0] in ("sliceiter", "enum"):
+                # a slice whose length was tested against a constant before the loop (`if (1..=19).contains(&n) { for b in &s[..n] ..`)
+                try:
+                    P = self.prover(fn)
+                    ln = an.len_of(o[1])
+                    if P.prove_le0(lin_add(P.lin(ln), lin_const(1 << 16), -1), self.facts(fn, H)):
+                        return True
+                except Exception:
+                    pass
     return False
 
 
